@@ -364,7 +364,12 @@ def config_lattice(rng, readers=("strict", "cursor")):
         for cum in [None, 0, 1, 7, 8, 9, 8 + len(body), 8 + len(body) + 1, 8 + len(body) - 1, 10**6, 2**32 - 1]:
             for data in (F() + m1 + box(b"mdat", body, form="eof"), F() + box(b"mdat", body, form="eof"),
                          F() + m1 + box(b"mdat", body), F() + box(b"mdat", body, form="eof") + m1,
-                         F() + m1 + box(b"mdat", body, form="eof") + box(b"free", b"")):
+                         F() + m1 + box(b"mdat", body, form="eof") + box(b"free", b""),
+                         # the option is about mdat only: an until-EOF free / skip / meta / unknown box keeps running to the end
+                         F() + m1 + box(b"mdat", body) + box(b"free", body + body, form="eof"),
+                         F() + box(b"mdat", body) + m1 + box(b"skip", box(b"moov", m1[8:]) + body, form="eof"),
+                         F() + m1 + box(b"mdat", body) + box(b"meta", body, form="eof"),
+                         F() + box(b"mdat", body) + m1 + box(b"abcd", body, form="eof")):
                 yield case_dense(rd, DEFAULT_MAX, cum, data), "cumulative-lattice"
 
 
